@@ -227,6 +227,11 @@ class Representation(RepresentationBaseType):
                     self.id, start_number, last_fragment, last_fragment - start_number,
                     num_segments)
                 num_segments = last_fragment - start_number
+                if num_segments < 1:
+                    # the window holds one or two segments: the one that has
+                    # just completed is available. Without any segment the
+                    # Representation could never finish
+                    num_segments = 1
             if start_number < self.segmentTemplate.startNumber:
                 num_segments -= self.segmentTemplate.startNumber - start_number
                 if num_segments < 1:
